@@ -14,7 +14,7 @@ ID = 'C10'
 CASE_TYPE = 'C10.case'
 EXTRA_IMPORTS = 'From PJ Require Import Model.Async.\n'
 RULE = ('batches of 1..3 (quick) / 1..4 (thorough) elements, each element a call or a notification of a method that succeeds / raises a '
-        'protocol error / raises another exception / is unknown / is a plain non-coroutine function / is a method of a class-based view keeping per-call state on its instance across the suspension, with 0..2 suspension points placed '
+        'protocol error / raises another exception / is unknown / is a plain non-coroutine function / is a method of a class-based view keeping per-call state on its instance across the suspension / takes no parameters (one of them receiving the application context by keyword) and is called without a params member, with 0..2 suspension points placed '
         'in the method, in a middleware (before / after the inner handler) or in an error handler (a third of the shapes also under a plain-function middleware that returns the inner awaitable); every suspension point is a Future; '
         'ALL interleavings of the resolution order are enumerated (multiset permutations; sampled above 400 per shape in quick) for the '
         'concurrent mode, and the forced order for concurrent_batch=False. Each element is also dispatched ALONE to obtain its own trace '
@@ -47,8 +47,15 @@ def build(shape, gate, concurrent):
                 await gate.wait(k)
                 gate.log.append((k, ['resume', place, j]))
 
+    # elements calling the parameterless methods carry no params member at all: they are told apart by the method name (at most
+    # one element per such method in a shape)
+    name_to_k = {e['m']: k for k, e in enumerate(shape) if e['m'] in NOPARAMS}
+
+    def elem(request):
+        return request.params[0] if request.params else name_to_k[request.method]
+
     async def mw(request, context, handler):
-        k = request.params[0]
+        k = elem(request)
         gate.log.append((k, ['enter']))
         await suspend(k, 'mw_pre')
         resp = await handler(request, context)
@@ -57,7 +64,7 @@ def build(shape, gate, concurrent):
         return resp
 
     async def eh(request, context, error):
-        k = request.params[0]
+        k = elem(request)
         gate.log.append((k, ['eh', error.code]))
         await suspend(k, 'eh')
         return error
@@ -65,7 +72,7 @@ def build(shape, gate, concurrent):
     def plain_mw(request, context, handler):
         # a middleware written as a plain function that does its bookkeeping and hands back the awaitable of the inner handler
         # (the middleware type allows it): entering happens when the dispatcher CALLS the chain, not when it awaits it
-        k = request.params[0]
+        k = elem(request)
         gate.log.append((k, ['enter-plain']))
         return handler(request, context)
 
@@ -96,6 +103,21 @@ def build(shape, gate, concurrent):
     for f in (ok, fail, boom, plain):
         disp.add(f)
 
+    # parameterless methods, one of them taking the application context under a keyword name
+    async def whoami(session):
+        a = name_to_k['whoami']
+        gate.log.append((a, ['call', 'whoami']))
+        await suspend(a, 'method')
+        return ['w', session]
+
+    async def ping():
+        a = name_to_k['ping']
+        gate.log.append((a, ['call', 'ping']))
+        await suspend(a, 'method')
+        return ['pong']
+    disp.add(whoami, context='session')
+    disp.add(ping)
+
     # a class-based view (no context): the library creates the instance for the request, so state kept on `self`
     # across a suspension point belongs to that element alone
     class View(ViewMixin):
@@ -114,8 +136,13 @@ def build(shape, gate, concurrent):
     return disp
 
 
+NOPARAMS = ('whoami', 'ping')
+
+
 def element_json(k, e):
     d = {'jsonrpc': '2.0', 'method': e['m'], 'params': [k]}
+    if e['m'] in NOPARAMS:
+        del d['params']
     if not e['notif']:
         d['id'] = 'i%d' % k
     return d
@@ -191,7 +218,7 @@ def max_pending_seen(gate):
     return None
 
 
-METHODS = ['ok', 'fail', 'boom', 'plain', 'nosuch', 'vok', 'vfail']
+METHODS = ['ok', 'fail', 'boom', 'plain', 'nosuch', 'vok', 'vfail', 'whoami', 'ping']
 
 
 def shapes(tier, rnd):
@@ -210,6 +237,9 @@ def shapes(tier, rnd):
         [('ok', 2, 'method', False), ('ok', 0, 'method', False), ('ok', 1, 'method', False)],
         [('vok', 1, 'method', False), ('vok', 0, 'method', False)],
         [('vok', 2, 'method', False), ('vfail', 1, 'method', False), ('vok', 1, 'method', True)],
+        [('whoami', 1, 'method', False), ('ping', 1, 'method', False)],
+        [('ping', 1, 'method', False), ('whoami', 0, 'method', False), ('ok', 1, 'method', False)],
+        [('whoami', 0, 'method', True), ('ok', 1, 'mw_pre', False), ('ping', 0, 'method', True)],
     ]
     out += base
     n_rand = 30 if tier == 'quick' else 160
@@ -218,6 +248,8 @@ def shapes(tier, rnd):
         sh = []
         for _ in range(n):
             m = rnd.choice(METHODS)
+            if m in NOPARAMS and any(x[0] == m for x in sh):
+                m = 'ok'
             w = rnd.choice(['method', 'method', 'mw_pre', 'mw_post', 'eh'])
             s = rnd.choice([0, 1, 2, 2 if n < 4 else 1])
             if m in ('plain', 'nosuch') and w == 'method':
@@ -293,8 +325,8 @@ def encode(case, obs):
         ch = list(range(len(case['shape']))) + list(ch)       # the awaitables are started in request order
     if obs['status'] != 'done':
         raise ValueError('schedule could not be followed: %s' % obs['status'])
-    return ('{| elems := %s; sequential := %s; choices := %s; obs_doc := %s; obs_trace := %s |}'
-            % (elems, cbool(case['sequential']), clist('%d%%nat' % k for k in ch), copt(obs['doc'], cjson), trace))
+    return ('{| elems := %s; registered := %s; sequential := %s; choices := %s; obs_doc := %s; obs_trace := %s |}'
+            % (elems, clist(cbool(e['m'] != 'nosuch') for e in case['shape']), cbool(case['sequential']), clist('%d%%nat' % k for k in ch), copt(obs['doc'], cjson), trace))
 
 
 def case_key(case):
